@@ -127,6 +127,33 @@ impl Params {
         }
     }
 
+    /// Long refutations: more packages and candidates, overlapping subset / range version sets,
+    /// many constrains, eager encoding through hints, so that an unsatisfiable verdict is
+    /// reached after many learnt clauses that are themselves derived from learnt clauses.
+    pub fn deep_conflict() -> Self {
+        Params {
+            min_pkgs: 7,
+            max_pkgs: 12,
+            max_cands: 8,
+            max_reqs: 5,
+            max_constrains: 5,
+            p_union: 100,
+            p_excluded: 10,
+            p_unknown: 5,
+            p_missing: 0,
+            p_empty_pkg: 0,
+            p_locked: 0,
+            hint_w: [5, 2, 3],
+            vs_w: [2, 1, 4, 5, 0],
+            cons_vs_w: [0, 1, 4, 5, 0],
+            p_forward: 850,
+            min_root_reqs: 1,
+            max_root_reqs: 2,
+            max_root_constraints: 1,
+            ..Params::conflict_heavy()
+        }
+    }
+
     /// Wide fan-out (C11): many requirements on distinct packages.
     pub fn fanout() -> Self {
         Params {
@@ -175,7 +202,7 @@ impl Params {
             max_reqs: 2,
             max_constrains: 1,
             p_union: 80,
-            p_unknown: 60,
+            p_unknown: 250,
             min_root_reqs: 1,
             max_root_reqs: 3,
             big_pkg: max,
@@ -376,6 +403,10 @@ pub fn gen_universe(t: &mut Tape, p: &Params) -> Universe {
             id: 0,
             text: format!("reason{i}"),
         });
+    }
+    if p.big_pkg > 0 {
+        let seed = t.next();
+        t.enable_tail(seed);
     }
     let np = t.range(p.min_pkgs.max(1), p.max_pkgs.max(p.min_pkgs).max(1));
     // package skeletons first (so that requirements can reference any package)
@@ -583,6 +614,10 @@ pub fn gen_conflict_free(t: &mut Tape, p: &Params, with_hints: bool) -> (Univers
             id: 0,
             text: format!("reason{i}"),
         });
+    }
+    if p.big_pkg > 0 {
+        let seed = t.next();
+        t.enable_tail(seed);
     }
     let np = t.range(p.min_pkgs.max(2), p.max_pkgs.max(2));
     let mut target: Vec<usize> = vec![];
